@@ -586,8 +586,12 @@ def get_request_id() -> int:  # pragma: no cover
 
     This returns a simple integer used to validate if a given response
     matches with the given request.
+
+    Request IDs (and SNMPv3 message IDs) are limited to 31 bits
+    (:rfc:`3416#section-3`, :rfc:`3412#section-6`). The value is derived from
+    the clock, which no longer fits in 31 bits in 2038.
     """
-    return int(time())
+    return int(time()) & 0x7FFFFFFF
 
 
 def sync(coro: Awaitable[T]) -> T:
